@@ -151,7 +151,10 @@ impl<'a> World<'a> {
 pub fn paste(w: &World, main_file: &str) -> Result<Flat, String> {
     let mut flat = Flat::default();
     let mut out: Vec<String> = vec![];
-    fn go(w: &World, file: &str, inherited: &[String], anc_dirs: &[String], flat: &mut Flat, out: &mut Vec<String>, depth: usize) -> Result<(), String> {
+    // `possible`: every .includepath directory textually before this point in this file or an
+    // ancestor, whether or not its conditional branch is taken - used only to recognise
+    // ambiguity conservatively (the model does not evaluate conditions)
+    fn go(w: &World, file: &str, inherited: &[String], possible: &[String], anc_dirs: &[String], flat: &mut Flat, out: &mut Vec<String>, depth: usize) -> Result<(), String> {
         if depth > 24 {
             return Err("model: include depth".into());
         }
@@ -159,6 +162,7 @@ pub fn paste(w: &World, main_file: &str) -> Result<Flat, String> {
         let fdir = dirname(file).to_string();
         // .includepath directives in scope: (directory, branch stack at the directive)
         let mut local: Vec<(String, Vec<u32>)> = vec![];
+        let mut possible: Vec<String> = possible.to_vec();
         let mut stack: Vec<u32> = vec![];
         let mut next_id = 1u32;
         for (i, line) in text.lines().enumerate() {
@@ -179,6 +183,7 @@ pub fn paste(w: &World, main_file: &str) -> Result<Flat, String> {
             }
             if let Some(arg) = parse_includepath(line) {
                 if let Some(d) = join_norm(&fdir, &arg) {
+                    possible.push(d.clone());
                     local.push((d, stack.clone()));
                 }
                 out.push(String::new());
@@ -193,7 +198,7 @@ pub fn paste(w: &World, main_file: &str) -> Result<Flat, String> {
                         scope.push(d.clone());
                     }
                 }
-                if w.all_candidates(&fdir, &scope, anc_dirs, &name).len() > 1 {
+                if w.all_candidates(&fdir, &possible, anc_dirs, &name).len() > 1 {
                     flat.ambiguous.push(name.clone());
                 }
                 let target = match w.find_documented(&fdir, &scope, &name) {
@@ -215,7 +220,7 @@ pub fn paste(w: &World, main_file: &str) -> Result<Flat, String> {
                         flat.resolved.push((file.to_string(), t.clone(), name.clone()));
                         let mut anc2 = anc_dirs.to_vec();
                         anc2.push(fdir.clone());
-                        go(w, &t, &scope, &anc2, flat, out, depth + 1)?;
+                        go(w, &t, &scope, &possible, &anc2, flat, out, depth + 1)?;
                     }
                     None => {
                         flat.unresolvable.push(name.clone());
@@ -230,7 +235,7 @@ pub fn paste(w: &World, main_file: &str) -> Result<Flat, String> {
         }
         Ok(())
     }
-    go(w, main_file, &[], &[], &mut flat, &mut out, 0)?;
+    go(w, main_file, &[], &[], &[], &mut flat, &mut out, 0)?;
     flat.text = out.join("\n");
     flat.text.push('\n');
     Ok(flat)
